@@ -90,6 +90,11 @@ func vpH_C16_ChildDerivation() {
 	child, err := k.NewPrivateChildKey(idx)
 	if k.Depth == 0xFF {
 		vpAssert(err == ErrMaxDepthReached && child == nil, "depth_255_cannot_derive")
+		pc255, perr255 := k.PublicKey().NewPublicChildKey(idx)
+		vpAssert(perr255 != nil && pc255 == nil, "depth_255_cannot_derive_from_the_public_key_either")
+		if idx < 1<<31 {
+			vpAssert(perr255 == ErrMaxDepthReached, "depth_255_cannot_derive_from_the_public_key_either")
+		}
 		return
 	}
 	// I = HMAC-SHA512(Key = cpar, Data = 0x00 || ser256(kpar) || ser32(i))  or  serP(point(kpar)) || ser32(i)
